@@ -511,6 +511,32 @@ fn c11_un_sqrt() {
 }
 
 // ---------------------------------------------------------------------------------------
+// literal <-> value: the folder replaces a constant subexpression by `Expr::from(value)` and reads
+// operands back with `Expr::to_const()` ("replacing a constant subexpression by its compile-time
+// value never changes what a script does" needs this pair to be inverse, bit for bit)
+
+//@ C11 c11_literal_roundtrip_int quick default the literal the folder writes for an int value reads back (to_const / as_const_int) as the same value, for every i32
+#[kani::proof]
+fn c11_literal_roundtrip_int() {
+    let x: i32 = kani::any();
+    let e: ast::Expr = V::Int(x).into();
+    assert!(e.as_const_int() == Some(x));
+    assert!(e.as_const_float().is_none());
+    assert!(e.to_const() == Some(V::Int(x)));
+    core::mem::forget(e);
+}
+//@ C11 c11_literal_roundtrip_float quick float the literal the folder writes for a float value reads back as the same bit pattern (NaN payloads and -0.0 included), for every f32
+#[kani::proof]
+fn c11_literal_roundtrip_float() {
+    let f: f32 = kani::any();
+    let e: ast::Expr = V::Float(f).into();
+    match e.as_const_float() { Some(g) => assert!(g.to_bits() == f.to_bits()), None => panic!("float literal must read back as a float") }
+    assert!(e.as_const_int().is_none());
+    match e.to_const() { Some(V::Float(g)) => assert!(g.to_bits() == f.to_bits()), _ => panic!("float literal must read back as a float value") }
+    core::mem::forget(e);
+}
+
+// ---------------------------------------------------------------------------------------
 // C09 (second sentence): "For every accepted expression, the type the checker assigns equals the
 // type of the value obtained by evaluating it" - for operator expressions the checker's type is
 // ast::Expr::{binop,unop}_ty_from_arg_ty, the value is const_eval's.  Operand types are restricted
